@@ -45,12 +45,39 @@ fn num<T: std::fmt::Display>(r: Result<T, ArchiveError>) -> String {
 fn optstr(r: Result<Option<String>, ArchiveError>) -> String {
     match r {
         // a string decoded lossily from bytes that are not Shift-JIS text (read_c_string through a pointer into raw
-        // data) has no faithful byte form: printed as LOSSY, compared as a wildcard (outside the properties' domain)
-        Ok(Some(s)) if s.contains('\u{FFFD}') => "ok:some:LOSSY".to_string(),
+        // data: U+FFFD, or a private-use / IBM-extension code the encoder cannot map back) has no faithful byte form: printed as LOSSY, compared as a wildcard (outside the properties' domain)
+        Ok(Some(s)) if s.contains('\u{FFFD}') || SHIFT_JIS.encode(&s).2 => "ok:some:LOSSY".to_string(),
         Ok(Some(s)) => format!("ok:some:{}", show_sjis(&s)),
         Ok(None) => "ok:none".to_string(),
         Err(e) => err_kind(&e).to_string(),
     }
+}
+
+/// read_c_string results: the string is printed as bytes only when it is a FAITHFUL decoding of the raw bytes it was read
+/// from (re-encoding gives exactly those bytes); otherwise LOSSY (see optstr)
+fn optcstr(a: &BinArchive, addr: usize, r: Result<Option<String>, ArchiveError>) -> String {
+    if let Ok(Some(s)) = &r {
+        let raw = (|| -> Option<Vec<u8>> {
+            let dest = a.read_pointer(addr).ok()??;
+            let mut v = Vec::new();
+            let mut p = dest;
+            loop {
+                match a.read_u8(p) {
+                    Ok(0) => return Some(v),
+                    Ok(b) => {
+                        v.push(b);
+                        p += 1;
+                    }
+                    Err(_) => return None,
+                }
+            }
+        })();
+        let (enc, _, bad) = SHIFT_JIS.encode(s);
+        if bad || raw.as_deref() != Some(&enc[..]) {
+            return "ok:some:LOSSY".to_string();
+        }
+    }
+    optstr(r)
 }
 
 fn optnum(r: Result<Option<usize>, ArchiveError>) -> String {
@@ -260,7 +287,7 @@ pub fn run(toks: &[&str]) -> String {
             "rs" => (optstr(a.read_string(u(arg(1)))), 1),
             "rp" => (optnum(a.read_pointer(u(arg(1)))), 1),
             "rl" => (optlabels(a.read_labels(u(arg(1)))), 1),
-            "rc" => (optstr(a.read_c_string(u(arg(1)))), 1),
+            "rc" => (optcstr(&a, u(arg(1)), a.read_c_string(u(arg(1)))), 1),
             "ds" => (unit(a.delete_string(u(arg(1)))), 1),
             "dp" => (unit(a.delete_pointer(u(arg(1)))), 1),
             "dls" => (unit(a.delete_labels(u(arg(1)))), 1),
@@ -313,7 +340,11 @@ pub fn run(toks: &[&str]) -> String {
             }
             "Rrs" => (format!("{} pos:{}", optstr(rd!(read_string)), rpos), 0),
             "Rrp" => (format!("{} pos:{}", optnum(rd!(read_pointer)), rpos), 0),
-            "Rrc" => (format!("{} pos:{}", optstr(rd!(read_c_string)), rpos), 0),
+            "Rrc" => {
+                let at = rpos;
+                let r = rd!(read_c_string);
+                (format!("{} pos:{}", optcstr(&a, at, r), rpos), 0)
+            }
             "Rrls" => (format!("{} pos:{}", optlabels(rd!(read_labels)), rpos), 0),
             "Rrl" => (format!("{} pos:{}", optstr(rd!(read_label, u(arg(1)))), rpos), 1),
             // ---- stream writer (cursor wpos)
